@@ -77,8 +77,8 @@ func (r *RaceDet) forkVC(vc []int, child *G) {
 	child.tick()
 }
 
-func (r *RaceDet) join(g, h *G)  { g.vc = vcJoin(g.vc, h.vc) }
-func (r *RaceDet) exit(g *G)     {}
+func (r *RaceDet) join(g, h *G) { g.vc = vcJoin(g.vc, h.vc) }
+func (r *RaceDet) exit(g *G)    {}
 func (r *RaceDet) release(g *G, o *syncObj) {
 	if len(g.vc) <= g.id {
 		g.tick()
